@@ -348,11 +348,11 @@ package ps
 //@
 //@ func randomOracleForBlindingProof
 //@   props C09
-//@   modifies heap:L!hash!data, heap:L!hash!key
+//@   modifies nothing
 //@
 //@ func randomOracleForPoKofSignature
 //@   props C09
-//@   modifies heap:L!hash!data, heap:L!hash!key
+//@   modifies nothing
 //@
 //@ func UnBlind
 //@   props C09
